@@ -320,6 +320,7 @@ def field_array(value: bytes) -> typing.Tuple[int, common.FieldArray]:
         offset = 4
         data = []
         field_array_end = offset + length
+        value = value[:field_array_end]  # Never read past the declared end
         while offset < field_array_end:
             consumed, result = embedded_value(value[offset:])
             if not consumed:
@@ -344,6 +345,7 @@ def field_table(value: bytes) -> typing.Tuple[int, common.FieldTable]:
         offset = 4
         data = {}
         field_table_end = offset + length
+        value = value[:field_table_end]  # Never read past the declared end
         while offset < field_table_end:
             key_length = common.Struct.byte.unpack_from(value, offset)[0]
             offset += 1
